@@ -26,6 +26,7 @@ mod t_spcr;
 mod t_facs;
 mod t_rsdp;
 mod t_sdt;
+mod t_misc;
 mod tcommon;
 
 use std::io::{BufRead, Write};
@@ -59,6 +60,7 @@ fn run_component(comp: u64, case: &Sx) -> Vec<Ev> {
         29 => t_facs::run(case, &mut out),
         30 => t_rsdp::run(case, &mut out),
         31 => t_sdt::run(case, &mut out),
+        32 => t_misc::run(case, &mut out),
         40 | 41 => amlterm::run(comp, case, &mut out),
         _ => panic!("harness: unknown component {}", comp),
     }));
@@ -269,7 +271,8 @@ fn classify(_prop: u32, comp: u64, case: &Sx, _evs: &[Ev]) -> Vec<String> {
 fn table_gens(prop: u32, tier: &str, rng: &mut Rng, emit: &mut Emit) {
     let only: Option<u64> = std::env::var("HARNESS_ONLY").ok().and_then(|s| s.parse().ok());
     let comps: &[u64] = match prop {
-        1 | 2 | 4 | 14 => &[10, 11, 12, 13, 14, 15, 16, 17, 18, 19, 20, 21, 22, 23, 24, 25, 26, 27, 28, 29, 30, 31],
+        2 | 4 => &[10, 11, 12, 13, 14, 15, 16, 17, 18, 19, 20, 21, 22, 23, 24, 25, 26, 27, 28, 29, 30, 31, 32],
+        1 | 14 => &[10, 11, 12, 13, 14, 15, 16, 17, 18, 19, 20, 21, 22, 23, 24, 25, 26, 27, 28, 29, 30, 31],
         3 => &[10, 11, 12, 13, 14, 15, 16, 17, 18, 19, 20, 21, 22],
         5 => &[16, 17, 18, 19],
         11 => &[12, 13, 15, 16, 18, 19, 20, 21, 24, 26],
@@ -306,6 +309,7 @@ fn table_gens(prop: u32, tier: &str, rng: &mut Rng, emit: &mut Emit) {
             29 => t_facs::gen(tier, rng, emit),
             30 => t_rsdp::gen(tier, rng, emit),
             31 => t_sdt::gen(tier, rng, emit),
+            32 => t_misc::gen(tier, rng, emit),
             _ => {}
         }
     }
